@@ -8,7 +8,7 @@
    (keys0, psort0, wsort0: arbitrary content) have the lengths the code allocates. *)
 From Coq Require Import ZArith QArith Qround List Bool Permutation Sorted.
 From Abacus.Common Require Import Arr Par.
-From Abacus.C17 Require Import Gen Model Spec Lib Mat Blocks Proofs ProofsCor ProofsPar ProofsSort ProofsKey ProofsTop.
+From Abacus.C17 Require Import Gen Model Spec Lib Mat Blocks Proofs ProofsCor ProofsPar ProofsSort ProofsKey ProofsTop ProofsSortAll.
 Import ListNotations.
 Local Open Scope Z_scope.
 
@@ -121,14 +121,46 @@ Theorem scatter_any_schedule : forall (P W : Type) (keyf : P -> Z) nthread npart
 Proof. exact scatter_any_schedule_cells. Qed.
 Print Assumptions scatter_any_schedule.
 
-(* sort=True, one stripe (partial).
-   STATED-UNPROVED: sorted_option — for sort = true, under the two argsort hypotheses below,
-     partition_model ... true ... = Ok (psort', starts_spec ..., wsort') with, for every stripe k,
-     seg psort' (starts k) (starts (k+1)) Sorted on the coordinate and a Permutation of stripe k (weights permuted alike).
-   Proved instead (sort_step_on_a_stripe): ONE iteration of the sort loop, for an arbitrary stripe [a,b) of arbitrary
-   arrays: Ok (no out-of-bounds access), nothing outside the stripe changes, the stripe becomes a sorted permutation of
-   itself and the weights are rearranged by the same indices.  The composition over the npartition iterations rests on
-   the correspondence run (sort=True cases are judged by predicate and, when the sorted order is unique, compared exactly). *)
+(* ★ sort=True, all stripes.  argsort (ndarray.argsort) is external: assumed, for EVERY call, to return a permutation of the
+   indices 0..n-1 under which its argument is sorted for cle (any relation: no order axioms are needed).  Then the model returns
+   Ok (no out-of-bounds access, no broadcast error) with the same offsets as without sorting, and with s k = starts[k]:
+     - every segment psort'[s k, s (k+1)) is Sorted on the coordinate and a Permutation of stripe k of the input
+       (= of the segment of the unsorted output, by starts_properties);
+     - psort' is still a Permutation of the input, and stripe-ordered: its key sequence is s1-s0 times 0, s2-s1 times 1, ...;
+     - weights: the pairs (psort'[j], wsort'[j]) of segment k are a Permutation of the input pairs (pos[i], weights[i]) with
+       pos[i] in stripe k (each weight stays with its position), and all the output pairs are a Permutation of the input pairs. *)
+Theorem sorted_option :
+  forall (P W C : Type) (keyf : P -> Z) (cv : P -> C) (cle : C -> C -> Prop) (argsort : list C -> list nat)
+    nthread npartition tstart pos (wts : option (list W)) keys0 psort0 wsort0,
+  preconditions keyf nthread npartition tstart pos wts keys0 psort0 wsort0 ->
+  (forall l : list C, Permutation (argsort l) (seq 0 (length l))) ->    (* what argsort is assumed to return on every call: *)
+  (forall l : list C, Sorted cle (gather l (argsort l))) ->             (* a permutation of the indices that sorts its argument *)
+  let st := starts_spec keyf npartition pos in
+  let s := fun k => nth (Z.to_nat k) st 0 in
+  exists psort' wsort',
+    partition_model P W C keyf cv argsort nthread npartition tstart pos wts true keys0 psort0 wsort0
+      = Ok (psort', st, wsort') /\
+    (forall k, 0 <= k < npartition ->
+       Sorted cle (map cv (seg psort' (s k) (s (k + 1)))) /\
+       Permutation (seg psort' (s k) (s (k + 1))) (stripe keyf k pos)) /\
+    Permutation pos psort' /\
+    map keyf psort' = flat_map (fun k => repeat k (Z.to_nat (s (k + 1) - s k))) (upto npartition) /\
+    match wts with
+    | None => wsort' = None
+    | Some w =>
+        exists ws, wsort' = Some ws /\ len ws = len pos /\
+          (forall k, 0 <= k < npartition ->
+             Permutation (combine (seg psort' (s k) (s (k + 1))) (seg ws (s k) (s (k + 1))))
+                         (stripe (fun pw => keyf (fst pw)) k (combine pos w))) /\
+          Permutation (combine pos w) (combine psort' ws)
+    end.
+Proof. exact sorted_option_lemma. Qed.
+Print Assumptions sorted_option.
+
+(* sort=True, ONE iteration of the sort loop, for an arbitrary stripe [a,b) of arbitrary arrays (the step of the induction
+   behind sorted_option, kept as a statement of its own): Ok (no out-of-bounds access), nothing outside the stripe changes,
+   the stripe becomes a sorted permutation of itself and the weights are rearranged by the same indices; here argsort is
+   constrained on this one call only. *)
 Theorem sort_step_on_a_stripe_partial :
   forall (P W C : Type) (cv : P -> C) (cle : C -> C -> Prop) (argsort : list C -> list nat)
          (has_w : bool) (starts : list Z) (i : Z) (pre part post : list P) (wpre wpart wpost : list W),
